@@ -10,7 +10,7 @@ import itertools
 
 import numpy as np
 
-from .. import core, env, gen, shape, specs
+from .. import core, editwalk, env, gen, shape, specs
 from .. import tdfref as R
 
 PROP = "C05"
@@ -19,6 +19,7 @@ RULE = ("states = (kind, item masks) ; all 2^n masks n<=8 (thorough 13), all mas
         "with independent masks; per state: independent parse of the written run table + decode under 3 "
         "allocator poisons x 2 repeats x 2 byte sources; non-trivial = some item has >=2 runs or starts/ends "
         "with a gap")
+RULE = RULE + editwalk.RULE_SUFFIX
 ASSUMPTIONS = [
     "'sampled for large n' is replaced by complete families: every <=1-run mask over 64/128 frames and every "
     "<=2-run mask over 16/24 frames, per kind",
@@ -173,10 +174,14 @@ def _shard(shard):
 
 def run(tier):
     _shard.tier = tier
-    return core.pmap(__name__, "_shard", shape.shards(gen.RLE_TYPES, 4))
+    acc = core.pmap(__name__, "_shard", shape.shards(gen.RLE_TYPES, 4))
+    acc.merge(core.pmap("mc.editwalk", "run_shard", editwalk.shards(PROP, tier)))
+    return acc
 
 
 def replay(w):
+    if w.get("editwalk"):
+        return editwalk.replay(w)
     try:
         check_one(specs.load(w["spec"]), w["opts"], core.Acc(), w.get("tag", ""))
     except core.Violation as v:
